@@ -5,6 +5,9 @@ import (
 	"fmt"
 	"math/rand"
 	"strings"
+	"time"
+
+	"github.com/samber/ro"
 
 	"verifharness/internal/catalog"
 	"verifharness/internal/driver"
@@ -114,6 +117,21 @@ func plan(tier string, seed int64) []driver.Case {
 		sc := randScript(rng, 1+rng.Intn(8))
 		cases = append(cases, driver.Case{ID: fmt.Sprintf("chain/%d/%s/%s", i, strings.Join(names, ">"), sc.String()), P: map[string]string{"kind": "chain", "chain": strings.Join(names, ">"), "scripts": sc.String(), "mode": "unsafe"}})
 	}
+	// Pipe / PipeN / PipeOp / PipeOpN / manual nesting must be observationally identical, every arity 1..25
+	for arity := 1; arity <= 25; arity++ {
+		reps := 4
+		if tier == "thorough" {
+			reps = 40
+		}
+		for k := 0; k < reps; k++ {
+			names := make([]string, arity)
+			for j := range names {
+				names[j] = modelled[rng.Intn(len(modelled))].Name
+			}
+			sc := randScript(rng, 1+rng.Intn(6))
+			cases = append(cases, driver.Case{ID: fmt.Sprintf("pipe/%d/%d/%s", arity, k, sc.String()), P: map[string]string{"kind": "pipe", "chain": strings.Join(names, ">"), "scripts": sc.String()}})
+		}
+	}
 	for i := 0; i < nLong; i++ {
 		e := modelled[rng.Intn(len(modelled))]
 		sc := randScript(rng, 20+rng.Intn(200))
@@ -209,8 +227,83 @@ func forwardsErrors(e *catalog.Entry) bool {
 	return true
 }
 
+func runPipe(c driver.Case) driver.Result {
+	var chain []*catalog.Entry
+	for _, n := range strings.Split(c.Get("chain"), ">") {
+		chain = append(chain, catalog.Get(n))
+	}
+	sc := src.Parse(c.Get("scripts"))
+	forms := []string{"manual nesting", "ro.Pipe (reflective)", "ro.PipeN (typed)", "ro.PipeOp (reflective)", "ro.PipeOpN (typed)"}
+	var traces []string
+	res := driver.Result{Verdict: driver.Held}
+	for f := range forms {
+		b := &catalog.B{}
+		s := src.New("s", sc)
+		b.Srcs = []ro.Observable[int]{s.Observable()}
+		ops := make([]iop, len(chain))
+		anyOps := make([]any, len(chain))
+		for i, e := range chain {
+			ops[i] = e.Op(b)
+			anyOps[i] = ops[i]
+		}
+		var o ro.Observable[int]
+		var pan any
+		func() {
+			defer func() { pan = recover() }()
+			switch f {
+			case 0:
+				o = b.S(0)
+				for _, op := range ops {
+					o = op(o)
+				}
+			case 1:
+				o = ro.Pipe[int, int](b.S(0), anyOps...)
+			case 2:
+				o = typedPipe(b.S(0), ops)
+			case 3:
+				o = ro.PipeOp[int, int](anyOps...)(b.S(0))
+			case 4:
+				o = typedPipeOp(ops)(b.S(0))
+			}
+		}()
+		if pan != nil {
+			res.Verdict, res.Key = driver.Violated, "C04/Pipe/composition-panics"
+			res.Msg = fmt.Sprintf("%s of %d operators [%s] panicked: %v", forms[f], len(chain), c.Get("chain"), pan)
+			return res
+		}
+		r := rec.New(forms[f])
+		sub := o.Subscribe(rec.Raw[int](r))
+		needs := false
+		for _, e := range chain {
+			if e.Flags.Has(catalog.Async) || e.Flags.Has(catalog.HandOff) || e.Flags.Has(catalog.TimeDriven) {
+				needs = true
+			}
+		}
+		if needs {
+			run.WaitOutcome(r, false, 3*time.Second)
+		}
+		traces = append(traces, r.TraceString())
+		res.Events += int64(r.Len())
+		func() { defer func() { recover() }(); sub.Unsubscribe() }()
+	}
+	for f := 1; f < len(forms); f++ {
+		if traces[f] != traces[0] {
+			res.Verdict, res.Key = driver.Violated, fmt.Sprintf("C04/Pipe/arity-%d/%s-differs-from-manual-nesting", len(chain), strings.Fields(forms[f])[0])
+			res.Msg = fmt.Sprintf("%d operators [%s] over [%s]: %s delivers [%s], manual nesting delivers [%s]", len(chain), c.Get("chain"), sc, forms[f], traces[f], traces[0])
+			return res
+		}
+	}
+	res.Nontrivial = res.Events > 0
+	res.Sig = fmt.Sprintf("pipe%d|%s→%s", len(chain), c.Get("chain"), traces[0])
+	res.Sample = map[string]any{"arity": len(chain), "operators": c.Get("chain"), "script": sc.String(), "trace_of_all_five_forms": traces[0]}
+	return res
+}
+
 func runCase(c driver.Case) driver.Result {
 	rec.ResetHooks()
+	if c.Get("kind") == "pipe" {
+		return runPipe(c)
+	}
 	scripts := parseScripts(c.Get("scripts"))
 	var o run.Opts
 	var exp catalog.Expect
@@ -276,9 +369,9 @@ func famOf(name string) string {
 
 func main() {
 	driver.Main(driver.Property{
-		ID:    "C04",
-		Level: "exploration",
-		Rule:  "every catalogue entry with an executable reference model × every tuple of legal source scripts (values over a small alphabet, length ≤ bound, endings complete/error/none) × source mode, plus seeded random chains (model = composition of the parts' models) and long random scripts; a case is non-trivial when at least one callback of the recording observer was observed; distinct = distinct (pipeline, observed trace) pairs",
+		ID:     "C04",
+		Level:  "exploration",
+		Rule:   "every catalogue entry with an executable reference model × every tuple of legal source scripts (values over a small alphabet, length ≤ bound, endings complete/error/none) × source mode, plus seeded random chains (model = composition of the parts' models) and long random scripts; a case is non-trivial when at least one callback of the recording observer was observed; distinct = distinct (pipeline, observed trace) pairs",
 		Assume: []string{"reference models are written from doc comments and pinned examples/tests (DESIGN §7.3)", "sources are synchronous cold sources; arrival-order semantics of multi-source operators are C05's"},
 		Plan:   plan,
 		Run:    runCase,
